@@ -196,6 +196,7 @@ pub fn expected_probes(property: &str) -> Vec<&'static str> {
             "fault_fired.eintr",
             "c16.short_slice",
             "c16.limited.len_errors",
+            "c16.stream_cut_inside_header",
             "c16.limited.continued_after_one_shot_error",
             "c16.fault_in_part1.tcp",
             "c16.fault_in_part1.ipv4",
@@ -485,17 +486,19 @@ pub fn run_main(property: &str, tier: &str) -> i32 {
             }
         }
     }
+    for e in &harness_errors {
+        eprintln!("HARNESS-ERROR: {e}");
+    }
+    if !unknown.is_empty() {
+        // confirmed, replayable violations take precedence; harness errors
+        // next to them (typically crashes of a memory-corrupting tree that do
+        // not reproduce deterministically) are listed above
+        return 1;
+    }
     if !harness_errors.is_empty() {
-        for e in &harness_errors {
-            eprintln!("HARNESS-ERROR: {e}");
-        }
         return 2;
     }
-    if unknown.is_empty() {
-        0
-    } else {
-        1
-    }
+    0
 }
 
 /// Determinism self-test: every run executed twice, in separate processes,
